@@ -22,8 +22,16 @@
             resolution), under the cache's path + /c[/s]/<broker host> when a
             cache is used; the body (POST) or the decoded path suffix (GET)
             is the poll, byte for byte.
+          Exactly ONE request is handed to the transport per Exchange (field
+          "requests" of the expectation): a redirect (301/302/303/307/308
+          with or without a Location, relative or absolute, same or another
+          host) is NOT followed - a followed redirect would contact the
+          Location's host directly, unfronted.  The scripted transport
+          answers 200 with a valid body to any follow-up request, so that a
+          followed redirect looks like a success.
    Res  - the class of Exchange's result:
-          * status other than 200: error;
+          * status other than 200 (1xx, 204, 206, 3xx, 4xx, 5xx), whatever
+            headers and body come with it: error;
           * POST: body of at most Limit bytes: exactly the body; more: error;
           * GET: an armored body of at most Limit bytes: exactly the armored
             payload; a body of more than Limit bytes: error; a body that is
@@ -35,9 +43,10 @@
    (hyphens doubled, dots to hyphens); spec/CacheURL covers the rest.
 
    DON'T-CARE:
-   * status 200 with a Location header on the AMP path (the code treats the
-     cache's "silent redirect" as an error; the property does not speak of
-     it): error, or exactly the payload;
+   * status 200 with a Location header (on the AMP path the code treats the
+     cache's "silent redirect" as an error, on the POST path it ignores the
+     header; the property does not speak of it): error, or exactly the
+     payload - but still exactly one request;
    * a broker URL with a non-default port combined with a cache (no faithful
      cache URL exists): anything but a panic, the request is not judged;
    * an EMPTY poll sent through a cache: its encoding ends in the slash that
@@ -93,7 +102,8 @@ Req(method, b, f, c, polllen) ==
       hostheader |-> origin,
       path |-> PathText(under \o base, method = "amp"),        \* the AMP path continues with the encoded poll
       poll |-> IF method = "http" THEN "body" ELSE IF c.on /\ polllen = 0 THEN "unjudged" ELSE "path-suffix",
-      mustnotname |-> IF f # "" /\ ~c.on THEN Cat(b.host) ELSE ""]
+      mustnotname |-> IF f # "" /\ ~c.on THEN Cat(b.host) ELSE "",
+      requests |-> 1]          \* what the transport sees of one Exchange: this request and no other
 
 SizeOf(s) ==
   CASE s = "0" -> 0 [] s = "small" -> 2000 [] s = "limit-1" -> Limit - 1 [] s = "limit" -> Limit
@@ -102,19 +112,23 @@ SizeOf(s) ==
 (* body shapes: "plain" arbitrary bytes; "armor-pad" a small armored payload
    followed by markup outside the pre elements up to the size; "armor-full"
    an armored payload that itself fills the size *)
+Locations == {"none", "relative", "same", "other"}     \* Location header: absent / a path / absolute, the origin's host / absolute, another host
+Redirects == {301, 302, 303, 307, 308}
 Res(method, status, loc, size, shape) ==
-  IF status # 200 THEN "error"
-  ELSE IF method = "http" THEN (IF SizeOf(size) <= Limit THEN "data" ELSE "error")
+  IF status # 200 THEN "error"                                  \* also every redirect, with any Location
   ELSE IF SizeOf(size) > Limit THEN "error"
-  ELSE IF shape = "plain" \/ size = "0" THEN "error"           \* no armor, no version indicator
-  ELSE IF loc THEN "any"
+  ELSE IF method = "amp" /\ (shape = "plain" \/ size = "0") THEN "error"      \* no armor, no version indicator
+  ELSE IF loc # "none" THEN "any"
   ELSE "data"
 
 (* the second sentence of the property as a statement about the contract:
-   success is promised only for a 200 within the limit *)
-NeverTruncated == \A m \in {"http", "amp"}, st \in Statuses, l \in BOOLEAN, s \in SizeNames, sh \in {"plain", "armor-pad", "armor-full"} :
-                    Res(m, st, l, s, sh) = "data" => st = 200 /\ SizeOf(s) <= Limit
+   success is promised only for a 200 within the limit; a redirect is an
+   error wherever it points *)
+NeverTruncated == \A m \in {"http", "amp"}, st \in Statuses, l \in Locations, s \in SizeNames, sh \in {"plain", "armor-pad", "armor-full"} :
+                    /\ (Res(m, st, l, s, sh) = "data" => st = 200 /\ SizeOf(s) <= Limit)
+                    /\ (st # 200 => Res(m, st, l, s, sh) = "error")
 ASSUME NeverTruncated
+ASSUME Redirects \subseteq Statuses
 
 (* ---------------------------------------------------------------------------
    A case is ONE rendezvous object (a configuration) and a short SEQUENCE of
@@ -143,21 +157,23 @@ ExpectPoll(cf, p) ==
 
 P(st, loc, s, sh, pl, pf) == [status |-> st, location |-> loc, size |-> s, shape |-> sh, poll |-> [len |-> pl, fill |-> pf]]
 PollOK(m, cn, p) ==
-  /\ (m = "http" => ~p.location /\ p.shape # "armor-full")           \* the POST body is opaque bytes
+  /\ (m = "http" => p.shape # "armor-full")                           \* the POST body is opaque bytes
   /\ (p.shape # "plain" => p.size # "0")                             \* there is no armor of zero bytes
   /\ (p.poll.len = 0 => p.poll.fill = "rand")
-  /\ (p.location => p.status \in {200, 302})
+  /\ (p.location # "none" => p.status \in Redirects \cup {200})
+  /\ (p.status # 200 => p.size \in {"0", "small"} /\ p.shape # "armor-full")   \* the body of an error response: none or a small one
+  /\ (p.status \in {100, 101, 204, 304} => p.size = "0")             \* statuses that carry no body
 (* every single poll (sequences of length 1) *)
-AllPolls(m, cn) == {p \in {P(st, loc, s, sh, pl, pf) : st \in Statuses, loc \in BOOLEAN, s \in SizeNames,
+AllPolls(m, cn) == {p \in {P(st, loc, s, sh, pl, pf) : st \in Statuses, loc \in Locations, s \in SizeNames,
                                  sh \in {"plain", "armor-pad", "armor-full"}, pl \in PollLens, pf \in {"rand", "ff"}} : PollOK(m, cn, p)}
 (* representatives of the result classes for the longer sequences; payload
    length and bytes differ from poll to poll *)
 RepPolls(m) ==
   IF m = "http"
-  THEN {P(200, FALSE, "small", "plain", 300, "rand"), P(200, FALSE, "limit", "armor-pad", 0, "rand"), P(404, FALSE, "small", "plain", 1500, "ff"),
-        P(200, FALSE, "limit+1", "plain", 300, "ff"), P(500, FALSE, "0", "plain", 1, "rand")}
-  ELSE {P(200, FALSE, "small", "armor-pad", 300, "rand"), P(200, FALSE, "limit", "armor-full", 1500, "ff"), P(302, TRUE, "small", "plain", 300, "ff"),
-        P(200, FALSE, "limit+1", "armor-pad", 1, "rand"), P(200, FALSE, "small", "plain", 300, "rand"), P(204, FALSE, "0", "plain", 1500, "rand")}
+  THEN {P(200, "none", "small", "plain", 300, "rand"), P(200, "none", "limit", "armor-pad", 0, "rand"), P(307, "other", "small", "plain", 1500, "ff"),
+        P(200, "none", "limit+1", "plain", 300, "ff"), P(500, "none", "0", "plain", 1, "rand")}
+  ELSE {P(200, "none", "small", "armor-pad", 300, "rand"), P(200, "none", "limit", "armor-full", 1500, "ff"), P(302, "other", "small", "armor-pad", 300, "ff"),
+        P(200, "none", "limit+1", "armor-pad", 1, "rand"), P(200, "none", "small", "plain", 300, "rand"), P(308, "relative", "0", "plain", 1500, "rand")}
 
 Init ==
   /\ \E m \in {"http", "amp"}, bn \in BrokerNames, fn \in FrontNames, cn \in CacheNames :
